@@ -189,7 +189,7 @@ type agreeVariant struct {
 func agreeVariants() []agreeVariant {
 	base := cenv{"in.f.Name": "fieldUnderTest", "in.p.Name": "CellPacket", "in.p.CamelName": "CellPacket", "in.k.Name": "keyField", "in.l.Name": "lengthField",
 		"in.t.Name": "targetField", "in.g.Name": "secondField", "in.inl.Name": "fieldUnderTest", "in.f.Length": int64(6), "in.f.PadChar": "'0'", "in.f.PadLeft": true,
-		"in.f.CheckSumType": "\"crc\"", "in.mp0.Key": "1", "in.mp1.Key": "2", "in.mp2.Key": "3",
+		"in.f.CheckSumType": "\"crc\"", "in.mp0.Key": "1", "in.mp1.Key": "2", "in.mp2.Key": "3", "in.mp3.Key": "4",
 		"in.cfg.JavaPackage": "", "in.cfg.GoPackage": "", "in.cfg.GoModule": ""}
 	mk := func(name string, opts map[string]string, cfg cenv) agreeVariant {
 		e := cenv{}
